@@ -152,8 +152,71 @@ Proof.
   - unfold PL.err_value. rewrite <- Hf. reflexivity.
 Qed.
 
+(* ---------- the same for EVERY pipeline configuration (wave 5) ---------- *)
+(* pcfg above fixes the flags of the pipeline model (the code as it is now, file with a header).  The
+   statements below quantify over the whole configuration record pc: any worker count (wf_cfg: >= 1),
+   any channel budget, with or without a header block (c_resume: a restart stream whose first block
+   is data), any header error, and - for the prefix statements - either form of the reader's loop
+   condition; the hypotheses on the repair flags are exactly those of the C02 theorems used. *)
+Theorem delivered_prefix_any_cfg : forall c f pc s,
+  valid_file f = true -> PL.c_inp pc = inst c f -> PL.wf_cfg pc = true ->
+  PL.c_recheck pc = true -> PL.c_nextctx pc = true -> PB.reach pc s ->
+  exists t, map (lab c f) (PL.delivered s) ++ t = kept c f.
+Proof.
+  intros c f pc s Hv Hi Hwf Hre Hnx Hr.
+  destruct (PO.delivered_is_prefix_all pc s Hwf Hre Hnx Hr) as [t Ht]. rewrite Hi in Ht.
+  exists (map (lab c f) t). exact (prefix_map c f _ _ Ht).
+Qed.
+
+Theorem scans_prefix_any_cfg : forall c f pc sched,
+  valid_file f = true -> PL.c_inp pc = inst c f -> PL.wf_cfg pc = true ->
+  PL.c_recheck pc = true -> PL.c_nextctx pc = true ->
+  exists t, map (lab c f) (PO.scan_vals (snd (PL.run pc sched (PL.init pc)))) ++ t = kept c f.
+Proof.
+  intros c f pc sched Hv Hi Hwf Hre Hnx.
+  destruct (PO.scans_are_prefix pc sched Hwf Hre Hnx) as [t Ht]. rewrite Hi in Ht.
+  exists (map (lab c f) t). exact (prefix_map c f _ _ Ht).
+Qed.
+
+Theorem completed_run_any_cfg : forall c f pc s,
+  valid_file f = true -> PL.c_inp pc = inst c f -> PL.wf_cfg pc = true -> PL.current pc = true ->
+  PL.c_hdr_err pc = 0%Z -> PB.reach pc s ->
+  PL.closed s = false -> PL.pcancelled s = false -> PL.s_err s <> 0%Z ->
+  map (lab c f) (PL.delivered s) = kept c f /\ PL.s_err s = PL.eEOF /\ PL.err_value s = 0%Z.
+Proof.
+  intros c f pc s Hv Hi Hwf Hcur Hh Hr Hc Hp He.
+  destruct (PT.T_completes pc s Hwf Hcur Hr Hh Hc Hp He) as [Hd Hf].
+  rewrite Hi in Hd, Hf. unfold inst in Hf. rewrite final_inst in Hf.
+  split; [|split].
+  - rewrite Hd. apply lab_expected.
+  - symmetry. exact Hf.
+  - unfold PL.err_value. rewrite <- Hf. reflexivity.
+Qed.
+
 (* without filters the kept sequence is the whole file *)
 Lemma keeps_all o : keeps cfg_all o = true.
 Proof. destruct o; reflexivity. Qed.
 Lemma kept_all f : kept cfg_all f = elements_file f.
 Proof. unfold kept. induction (elements_file f) as [|o l IH]; simpl; [reflexivity|]. rewrite keeps_all, IH. reflexivity. Qed.
+
+(* unfiltered instances of the any-configuration theorems *)
+Theorem delivered_prefix_any_cfg_all : forall f pc s,
+  valid_file f = true -> PL.c_inp pc = inst cfg_all f -> PL.wf_cfg pc = true ->
+  PL.c_recheck pc = true -> PL.c_nextctx pc = true -> PB.reach pc s ->
+  exists t, map (lab cfg_all f) (PL.delivered s) ++ t = elements_file f.
+Proof.
+  intros f pc s Hv Hi Hwf Hre Hnx Hr.
+  destruct (delivered_prefix_any_cfg cfg_all f pc s Hv Hi Hwf Hre Hnx Hr) as [t Ht].
+  exists t. rewrite Ht. apply kept_all.
+Qed.
+
+Theorem completed_run_any_cfg_all : forall f pc s,
+  valid_file f = true -> PL.c_inp pc = inst cfg_all f -> PL.wf_cfg pc = true ->
+  PL.current pc = true -> PL.c_hdr_err pc = 0%Z -> PB.reach pc s ->
+  PL.closed s = false -> PL.pcancelled s = false -> PL.s_err s <> 0%Z ->
+  map (lab cfg_all f) (PL.delivered s) = elements_file f /\ PL.s_err s = PL.eEOF /\ PL.err_value s = 0%Z.
+Proof.
+  intros f pc s Hv Hi Hwf Hc Hh Hr H1 H2 H3.
+  destruct (completed_run_any_cfg cfg_all f pc s Hv Hi Hwf Hc Hh Hr H1 H2 H3) as (A & B & C).
+  rewrite kept_all in A. auto.
+Qed.
